@@ -4,4 +4,5 @@ Extraction Language OCaml.
 Extraction "model.ml" mkNumOps nhalf wrap value_to_bin bin_to_value bins index_ok strides nxc ntot
   address incr wrap_index nbins_round mkHistCfg mkHistIn hist_step hist_init hist_run mkGeom remap_target remap
   mkGrid all_indices strip write_raw read_raw write_multicol read_multicol grid_from_multicol
-  get_state_params write_restart read_block parse_params read_restart mkCv init_bounds dx_origin dx_delta zeros.
+  get_state_params write_restart read_block parse_params read_restart mkCv init_bounds dx_origin dx_delta zeros
+  write_raw_bin read_raw_bin normalise denormalise write_multicol_norm read_multicol_norm dec_round fmt_toks gather.
